@@ -280,4 +280,6 @@ def promoted_strs(fb, body, idx, owner=None):
                         out.append(oo['str'])
                     elif 'uneval' in oo:
                         out.append('const:' + oo['uneval'])
+                        if 'promoted' not in oo and oo['uneval'].startswith(body.crate + '::'):
+                            out += static_strs(fb, body, oo['uneval'])       # `&NAME` of a `const NAME: &str` of the crate: its value
     return out
